@@ -7,6 +7,7 @@ P10 = ["C10", "C03", "C07"]
 
 
 def register(S):
+    register_lemmas(S)
     S.declare_fields("RefCountingColl", _lock="obj:Lock", _dict="dict:slot")
     WF = "implies(haskey(self._dict, key), slot_ok(self._dict[key]))"
     S.contract(F + "add", params={"self": "obj:RefCountingColl", "key": "val", "obj": "val"}, requires=[WF],
@@ -30,3 +31,38 @@ def register(S):
     S.contract(F + "__getitem__", params={"self": "obj:RefCountingColl", "key": "val"}, result="val", requires=[WF],
                ensures={"the_lent_object": ("haskey(self._dict, key) and same(result, lent(self._dict, key))", P10)},
                raises={"KeyError": {"only_when": "not haskey(self._dict, key)", "props": P10}}, modifies=[])
+
+
+def register_lemmas(S):
+    """C10's inductive invariant over all histories of refcount messages, for one lent id:
+       B boxes outstanding at the owner (slot count + 1, or 0 = slot absent), F reference labels in flight
+       owner->peer, P sum of the refcounts of the live proxies at the peer, D sum of the counts of release
+       notices created and not yet processed.   I == (B = F + P + D) and all >= 0.
+    Each transition's effect on B is the spec function the contracts of add / decref are stated with
+    (after_add / after_decref), so weakening those contracts breaks these lemmas."""
+    def inv(K, B, F_, P, D):
+        return K.z3.And(B.z == F_.z + P.z + D.z, B.z >= 0, F_.z >= 0, P.z >= 0, D.z >= 0)
+
+    @S.composition("C10/inductive", ["C10"])
+    def inductive(K):
+        z3 = K.z3
+        B, F_, P, D, c = [K.fresh(n, "int") for n in ("B", "F", "P", "D", "c")]
+        I = inv(K, B, F_, P, D)
+        K.uses(F + "add", "default", "ensures:one_more_box")
+        K.uses(F + "decref", "default", "ensures:count_returned")
+        out = []
+        # the owner boxes the object once more (alone or as one occurrence inside a tuple)
+        B1 = K.expr("after_add(B)", {"B": B})
+        out.append(("box", [I], z3.And(B1.z == (F_.z + 1) + P.z + D.z, B1.z >= 0)))
+        # the reference label arrives: the live proxy's count is bumped, or a new proxy with count 1 is created
+        out.append(("unbox", [I, F_.z >= 1], z3.And(B.z == (F_.z - 1) + (P.z + 1) + D.z, F_.z - 1 >= 0)))
+        # a proxy is dropped: its finalizer sends its WHOLE count c as one release notice
+        out.append(("drop-proxy", [I, c.z >= 1, c.z <= P.z], z3.And(B.z == F_.z + (P.z - c.z) + (D.z + c.z), P.z - c.z >= 0)))
+        # a release notice with count c is processed by the owner (decref)
+        B2 = K.expr("after_decref(B, c)", {"B": B, "c": c})
+        out.append(("deliver-release", [I, c.z >= 1, c.z <= D.z], z3.And(B2.z == F_.z + P.z + (D.z - c.z), B2.z >= 0, D.z - c.z >= 0)))
+        # passing a proxy back to its owner is a local-reference label: nothing changes (no transition)
+        # consequences
+        out.append(("alive-while-held", [I, P.z >= 1], B.z >= 1))
+        out.append(("released-when-all-dropped", [I, F_.z == 0, P.z == 0, D.z == 0], B.z == 0))
+        return out
